@@ -27,6 +27,7 @@ MC_VOps == {"*", "-"}
 MC_Senses == {"<=", ">=", "=="}
 MC_Stages == <<>>
 MC_FinalEn == {}
+MC_SingValues == {}
 MC_Want == {}
 MC_NoPR(o) == <<>>
 ASSUME PrintT(<<"BASE", BaseCalls, BaseHeap, AllNames>>)
